@@ -15,6 +15,7 @@ RULE = ("one run = 1-8 concurrent client tasks issuing 1-30 EtherCat.roundtrip c
         "distinct = distinct SHA-256 of the full event log (every tx/rx frame, submit "
         "and completion with global sequence numbers); non-trivial = at least 2 "
         "requests and 1 frame")
+RULE += "; 'long-history' since the 4th session also: a burst of 4097-4796 requests in one loop turn whose frames are lost behind the held one (they may only stay pending), and an unsendable request (datagram index > 255) made first"
 COMPONENTS = {
     "real": ["ebpfcat.ethercat.EtherCat.connect/connection_made/sendloop/process_packet/"
              "roundtrip_packet/roundtrip/datagram_received", "ebpfcat.ethercat.Packet",
